@@ -6,7 +6,7 @@ For each case, in a private scratch worktree of /repo's HEAD: demo on the clean 
 property's own check (quick) and, with --all, every other check. Writes <case>/meta.json and prints one line per case.
 The worktree is removed at the end.
 """
-import json, os, subprocess, sys, glob, time
+import json, os, re, subprocess, sys, glob, time
 VERIF = os.path.dirname(os.path.dirname(os.path.abspath(__file__)))
 flags = sys.argv[1:]
 only = flags[flags.index('--only') + 1] if '--only' in flags else ''
@@ -20,7 +20,7 @@ needs = json.load(open(os.path.join(VERIF, 'seeded', 'NEEDS.json'))) if os.path.
 try:
     for d in sorted(glob.glob(os.path.join(VERIF, 'seeded', 'C*-r*-*'))):
         case = os.path.basename(d)
-        if only and only not in case:
+        if only and not re.search(only, case):
             continue
         prop = case.split('-')[0]
         sh('git -C %s checkout -q --detach %s; git -C %s checkout -- .; git -C %s clean -fdq' % (WT, head, WT, WT))
